@@ -282,6 +282,11 @@ func c35Run(t *testing.T, ci any, trace bool) *verifsim.Result {
 		}
 		// settled: at least two rebroadcast rounds later
 		s.Settle(2*rebroadcastInterval + 20*time.Second)
+		// rebroadcasts are periodic: step on until the queue is idle, i.e. not in the
+		// middle of a (possibly multi-message) rebroadcast round
+		for i := 0; i < 200 && (mq.pendingWorkCount() != 0 || snd.inflight != 0); i++ {
+			s.Settle(137 * time.Millisecond)
+		}
 		if mq.pendingWorkCount() != 0 || snd.inflight != 0 {
 			s.Failf("never-idle", "the queue still has %d pending items / %d sends in flight %v after the producers finished", mq.pendingWorkCount(), snd.inflight, 2*rebroadcastInterval+25*time.Second)
 		} else if d := diff(replay()); d != "" {
